@@ -10,7 +10,7 @@ open Mav
 theorem sigInput_spec (f : V2Frame) (p : Bytes) :
     f.sigInput p = [0xFD, UInt8.ofNat p.length, f.incompat, f.compat, f.seq, f.sys, f.comp] ++ le24 f.msg.id ++ p
       ++ le16 f.crc ++ [f.linkId] ++ le48 f.ts := by
-  simp [V2Frame.sigInput, Gen.v2MagicByte, lenByte, uint24Encode, le24, uint48Encode, le48]
+  simp [V2Frame.sigInput, Gen.v2MagicByte, lenByte, uint24Encode, Gen.uint24Encode, le24, uint48Encode, Gen.uint48Encode, le48]
 
 /-- **C06 (gate).** With an incoming key the signature gate accepts exactly v2 frames that carry a signature equal
     to the first 6 bytes of H(key ‖ sigInput) and are not refused by the replay window; the three refusals are
@@ -52,11 +52,11 @@ theorem v1_refused (cfg : RCfg) (key : Bytes) (hk : cfg.key = some key) (st : RS
 theorem unsigned_refused (cfg : RCfg) (key : Bytes) (hk : cfg.key = some key) (st : RState) (g : V2Frame)
     (h : g.sig = none) : sigGate cfg st (.v2 g) = .error .sigMissing := by simp [sigGate, hk, h]
 
-theorem mismatch_refused (cfg : RCfg) (key : Bytes) (hk : cfg.key = some key) (st : RState) (g : V2Frame)
+theorem mismatch_refused (cfg : RCfg) (key : Bytes) (hk : cfg.key = some key) (hw : cfg.specWindow = false) (st : RState) (g : V2Frame)
     (id : UInt32) (p sg : Bytes) (hm : g.msg = .raw id p) (hs : g.sig = some sg)
     (h : sg ≠ (cfg.H (key ++ g.sigInput p)).take 6) : sigGate cfg st (.v2 g) = .error .sigWrong := by
   have : ((cfg.H (key ++ g.sigInput p)).take 6 != sg) = true := by simpa [bne_iff_ne] using fun e => h e.symm
-  simp [sigGate, hk, hs, V2Frame.genSignature, hm, this]
+  simp [sigGate, hk, hs, V2Frame.genSignature, hm, hw, this]
 
 /-- without a key nothing is checked -/
 theorem no_key_passes (cfg : RCfg) (hk : cfg.key = none) (st : RState) (f : Frame) : sigGate cfg st f = .ok st := by
